@@ -272,7 +272,50 @@ fn birthday_case(rep: &mut Report, case: u64) {
     rep.distinct(("birthday", case));
 }
 
+/// Far tails: among 65 million seeded draws about 37 lie beyond five standard deviations
+/// (P(|z| > 5) = 5.73e-7); a generator that clips or redraws its tails shows none.
+fn tails_case(rep: &mut Report, case: u64, g: &mut Sm64) {
+    let mon = "dist";
+    let calls = 1000usize;
+    let (mut beyond5, mut beyond6, mut total) = (0u64, 0u64, 0u64);
+    let f32_case = case % 2 == 1;
+    for _ in 0..calls {
+        let seed = g.next_u64();
+        if f32_case {
+            let v: Vec<Vec<f32>> = init_with_seed(255, 255, seed);
+            for x in v.iter().flatten() {
+                total += 1;
+                if x.abs() > 5.0 { beyond5 += 1; }
+                if x.abs() > 6.0 { beyond6 += 1; }
+            }
+        } else {
+            let v: Vec<Vec<f64>> = init_with_seed(255, 255, seed);
+            for x in v.iter().flatten() {
+                total += 1;
+                if x.abs() > 5.0 { beyond5 += 1; }
+                if x.abs() > 6.0 { beyond6 += 1; }
+            }
+        }
+    }
+    rep.evals(calls as u64);
+    let expect5 = total as f64 * 5.733e-7;
+    rep.count_n("entries_examined_for_far_tails", total);
+    rep.count_n("entries_beyond_5_sigma", beyond5);
+    // Poisson(37): P(X < 10) ~ 1e-8, P(X > 80) ~ 1e-9; beyond 6 sigma: expectation 0.13, P(X > 8) ~ 1e-13
+    if (beyond5 as f64) < expect5 * 0.27 || (beyond5 as f64) > expect5 * 2.15 || beyond6 > 8 {
+        rep.violation("init_with_seed far-tails-are-not-those-of-a-standard-normal", mon, case,
+            json!({"entries": total, "beyond_5_sigma": beyond5, "expected": expect5, "beyond_6_sigma": beyond6, "type": if f32_case { "f32" } else { "f64" }}));
+        return;
+    }
+    rep.held();
+    rep.distinct(("tails", case));
+}
+
 pub fn run(ctx: &Ctx, rep: &mut Report) {
+    for c in ctx.case_ids("tails", 2, 32) {
+        let mut g = ctx.rng("tails", c);
+        tails_case(rep, c, &mut g);
+    }
     for c in ctx.case_ids("birthday", 2, 16) {
         birthday_case(rep, c);
     }
